@@ -33,12 +33,12 @@ fn main() {
                 let rev = rev.as_str().unwrap();
                 let want = rec["results"][n].as_str().unwrap();
                 let r = catch_unwind(AssertUnwindSafe(|| genabi::ledger_verify(rev, dir.to_str().unwrap())));
-                let got = match &r {
+                let got = match r {
                     Ok(Ok(())) => "ok".to_string(),
                     Ok(Err(e)) => format!("err: {}", e),
-                    Err(_) => "panic".to_string(),
+                    Err(p) => format!("panic: {}", panic_msg(p)),
                 };
-                let class = if got.starts_with("err") { "err" } else { got.as_str() };
+                let class = if got.starts_with("err") { "err" } else if got.starts_with("panic") { "panic" } else { got.as_str() };
                 if class != want {
                     let check = if want == "ok" { if n > 0 && runs[n - 1] == runs[n] { "c15.second_run" } else { "c15.compatible_rejected" } } else { "c15.breaking_accepted" };
                     fails.push(json!({"check": check, "detail": format!("run #{} over revision {}: real {} spec {}", n, rev, got.chars().take(200).collect::<String>(), want)}));
